@@ -909,7 +909,42 @@ def build_case(node, modname, layers):
         if 'ilevel' in t:
             inst.level = t['ilevel']
         suite.addTest(inst)
+    if node.get('class_skip'):
+        # (only reached when something keeps unittest's class fixtures alive, see _SuiteLike)
+        def setUpClass(klass):
+            raise unittest.SkipTest('class fixture says no')
+        cls.setUpClass = classmethod(setUpClass)
+    if node.get('wrap') == 'suitelike':
+        wrapped = _SuiteLike(suite, '%s.%s' % (modname, node['name']))
+        _decorate(wrapped, node, layers)
+        return cls, wrapped
     return cls, suite
+
+
+class _SuiteLike:
+    """a suite-like test object that is not a unittest.TestSuite: the runner treats it as one test and calls it, so
+    unittest's own suite machinery (class and module fixtures included) runs inside that one 'test'"""
+
+    def __init__(self, suite, name):
+        self._suite = suite
+        self._name = name
+
+    def countTestCases(self):
+        return self._suite.countTestCases()
+
+    def __call__(self, result):
+        return self._suite.run(result)
+
+    run = __call__
+
+    def id(self):
+        return self._name
+
+    def __str__(self):
+        return 'suite-like %s' % self._name
+
+    def shortDescription(self):
+        return None
 
 
 def _layer_ref(ref, layers):
